@@ -136,6 +136,13 @@ func compareWorld(s *scn.Scn, r *scn.Run, m *scn.MResult) (string, string) {
 			note("selfdestruct", "%x self-destructed: real %v, expected %v", a[16:], got, want)
 		}
 	}
+	// which accounts are left once the transaction is finalised (empty accounts whose dirtiness survived and
+	// self-destructed ones go): read off the counting StateDB's journal-aware dirty log, the state itself is not finalised
+	for _, a := range m.Addresses(s) {
+		if got, want := db.ExistsFinalised(a), m.World.ExistsFinalised(a); got != want {
+			note("existence", "%x exists after finalisation: real %v, expected %v", a[16:], got, want)
+		}
+	}
 	logs := db.Logs()
 	var gl []string
 	for _, l := range logs {
